@@ -508,7 +508,7 @@ func parseRaceLogs(prefix string, extra string) []raceReport {
 	}
 	var out []raceReport
 	seen := map[string]bool{}
-	fnRe := regexp.MustCompile(`(?m)^  ([^\s].*?)\(.*\)$`)
+	fnRe := regexp.MustCompile(`(?m)^  (\S.*)\(\)$`)
 	for _, t := range texts {
 		// split into access stacks: the two first blocks ("Write at", "Previous read at", ...)
 		blocks := regexp.MustCompile(`(?m)^(?:Write|Read|Previous write|Previous read|Atomic|Previous atomic)[^\n]*$`).Split(t, -1)
